@@ -43,7 +43,7 @@ func vNewWorld(E int) *vWorld {
 	w := &vWorld{}
 	w.cs = cluster.NewState(&cluster.Node{ID: "local", ProxyAddr: "p:1", AdminAddr: "a:1"}, log.NewNopLogger())
 	w.m = NewLoadBalancedManager(w.cs, nil)
-	w.gs = pkggossip.VerifNewClusterState("local", "g:1", &pkggossip.VerifDetector{}, nil)
+	w.gs = pkggossip.VerifNewClusterState("local", "g:1", &pkggossip.VerifDetector{Levels: map[string]float64{}}, nil)
 	sy := servergossip.VerifNewSyncer(w.cs)
 	sy.Sync(w.gs)
 	w.ids = vEndpointIDs(E)
